@@ -3,7 +3,7 @@
    types, andb/orb are inlined; N, positive, nat stay inductive datatypes.  No Extract Constant. *)
 From Coq Require Extraction.
 From Coq Require Import ExtrOcamlBasic.
-From Akd Require Import Bits NodeLabel ElemSet Marker Blake3 Hashing Tree Insert Manager Directory Verify Spec Store Sched Proto.
+From Akd Require Import Bits NodeLabel ElemSet Marker Blake3 Hashing Tree Insert Manager Directory Verify Spec Store Sched Proto CacheProto.
 
 Extraction "../extract/model.ml"
   is_prefix_of get_prefix get_longest_common_prefix get_prefix_ordering nl_cmp
@@ -17,4 +17,5 @@ Extraction "../extract/model.ml"
   dir_new publish Directory.lookup key_history audit lookup_verify key_history_verify audit_verify_gen spec_root_hash rebuild_root verify_consecutive d_tombstone
   commit_shape of_list overlay view determine root_hash_at Sched.run Sched.results
   enc_label dec_label enc_elem dec_elem enc_sib dec_sib enc_mp dec_mp enc_nmp dec_nmp enc_lookup dec_lookup
-  enc_update dec_update enc_history dec_history enc_single dec_single enc_audit dec_audit label_input_hash fresh_value blob_name parse_blob_name.
+  enc_update dec_update enc_history dec_history enc_single dec_single enc_audit dec_audit label_input_hash fresh_value blob_name parse_blob_name
+  trun returned.
